@@ -153,6 +153,24 @@ def compare_fd(pp, torch, fn, inputs, cot, tol=2e-5, fd=None):
     for gvec in ig:
         if any(not math.isfinite(v) for v in gvec):
             return 'gradient contains NaN/Inf: %s' % gvec
+    # "with the remaining slot zero" - for EVERY upstream cotangent: when the program's value is a group element consumed through its raw
+    # components, the cotangent's extra slot is not zero; the extra slot of every group input's gradient must still be exactly 0
+    try:
+        ins = [x.detach().clone().requires_grad_() for x in inputs]
+        out = fn(*ins)
+        if isinstance(out, pp.LieTensor) and not out.ltype.on_manifold and out.tensor().requires_grad:
+            t = out.tensor()
+            full = torch.zeros_like(t).reshape(-1)
+            full[:cot.numel()] = cot.reshape(-1)
+            full = full.reshape(t.shape).clone()
+            full[..., -1] = 0.75
+            gs = torch.autograd.grad(t, ins, full, allow_unused=True)
+            for k, (gk, x) in enumerate(zip(gs, inputs)):
+                if gk is not None and isinstance(x, pp.LieTensor) and not x.ltype.on_manifold and float(gk[..., -1].abs().max()) != 0.0:
+                    return ('input %d: the remaining slot of the gradient is %r, not 0, when the upstream cotangent of the (group-valued) result has a '
+                            'non-zero extra slot (0.75)' % (k, [float(v) for v in gk[..., -1].reshape(-1).tolist()]))
+    except Exception as e:
+        return 'autograd raised %r for an upstream cotangent with a non-zero extra slot' % (e,)
     # the gradient of an input must not depend on which OTHER inputs require grad
     if len(inputs) > 1:
         for k in range(len(inputs)):
